@@ -192,6 +192,48 @@ class A(Adapter):
             return "solved"
         return None
 
+    # ---- reach probes ------------------------------------------------------------------------------
+    def events(self, ps, action, s, ts, env, cfg):
+        walls1, targets1, boxes1, agent1 = self._parts(s)
+        on1 = self._on_targets(boxes1, targets1)
+        if ps is None:
+            return ([f"reset_gen_{cfg.get('gen', 'unknown')}"] + (["reset_box_already_on_target"] if on1 else [])
+                    + (["reset_agent_adjacent_to_box"] if any((agent1[0] + dr, agent1[1] + dc) in boxes1 for dr, dc in DELTA) else []))
+        walls, targets, boxes, agent = self._parts(ps)
+        R, C = walls.shape
+        dr, dc = DELTA[int(action)]
+        t, b = (agent[0] + dr, agent[1] + dc), (agent[0] + 2 * dr, agent[1] + 2 * dc)
+        inside = lambda p: 0 <= p[0] < R and 0 <= p[1] < C  # noqa: E731
+        ev = []
+        if not inside(t):
+            ev.append("move_blocked_by_border")
+        elif walls[t]:
+            ev.append("move_blocked_by_wall")
+        elif t not in boxes:
+            ev.append("moved_without_push")
+            if targets[t]:
+                ev.append("agent_steps_on_target")
+        elif not inside(b):
+            ev.append("push_blocked_by_border")
+        elif walls[b]:
+            ev.append("push_blocked_by_wall")
+        elif b in boxes:
+            ev.append("push_blocked_by_box")
+        else:
+            ev.append("box_pushed")
+            kind = {(False, True): "box_pushed_onto_target", (True, False): "box_pushed_off_target",
+                    (True, True): "box_pushed_target_to_target"}.get((bool(targets[t]), bool(targets[b])))
+            if kind:
+                ev.append(kind)
+            solid = [not inside(p) or bool(walls[p]) for p in ((b[0] + ddr, b[1] + ddc) for ddr, ddc in DELTA)]  # up, right, down, left
+            if not targets[b] and (solid[0] or solid[2]) and (solid[1] or solid[3]):
+                ev.append("box_pushed_into_corner_deadlock")
+        if on1 == N_BOXES:
+            ev.append("end_solved")
+        elif on1 == N_BOXES - 1:
+            ev.append("three_boxes_on_targets")
+        return ev
+
     # ---- C12 -------------------------------------------------------------------------------------
     def observe(self, s, obs, env, cfg):
         g = np.asarray(obs.grid)
